@@ -151,29 +151,20 @@ func (b *BitcoinOnChain) GetVoutAndVerify(txHex string, params *swap.OpeningPara
 		return false, 0, err
 	}
 
-	var scriptOut *wire.TxOut
-	var vout uint32
-	for i, out := range msgTx.TxOut {
-		if out.Value == int64(params.Amount) {
-			scriptOut = out
-			vout = uint32(i)
-			break
-		}
-	}
-	if scriptOut == nil {
-		return false, 0, err
-	}
-
 	wantScript, err := b.GetOutputScript(params)
 	if err != nil {
 		return false, 0, err
 	}
 
-	if bytes.Compare(wantScript, scriptOut.PkScript) != 0 {
-		return false, 0, err
+	// The swap output pays the swap amount to the swap script. Another output
+	// that happens to carry the same value (a change output, for instance)
+	// must not be mistaken for it, wherever it sits in the transaction.
+	for i, out := range msgTx.TxOut {
+		if out.Value == int64(params.Amount) && bytes.Equal(wantScript, out.PkScript) {
+			return true, uint32(i), nil
+		}
 	}
-
-	return true, vout, nil
+	return false, 0, nil
 }
 
 func (b *BitcoinOnChain) GetOutputScript(params *swap.OpeningParams) ([]byte, error) {
